@@ -287,3 +287,14 @@ def defined_classes():
 def renamed_attrs(cls):
     """attributes whose wire tag differs from the upper-cased attribute name (groom / ungroom renames)"""
     return [a for a, t in wire_tags(cls).items() if t != a.upper()]
+
+
+def container_of(M):
+    """a class that declares M as a list member (or None)"""
+    for K in all_classes():
+        if issubclass(K, ElementList):
+            continue
+        for a, c in K.listaggregates.items():
+            if c.__type__ is M:
+                return K, a
+    return None
